@@ -7,6 +7,10 @@ C07_FILE_JOBS = [
     dict(name="reader-cell-chunk-sym", harness="C07_file.cpp", entries=["harness_cell_chunk_sym"], shards=[{1: 0}], timeout=600,
          bounds="reader state after VERT (4) + EDGES (6) + one accepted FACE chunk; CELL chunk with two SYMBOLIC 1-byte halfface handles and a SYMBOLIC 64-bit handle_offset (bottom-up incidences off as in the reader): "
                 "no memory error; accepted => exactly one cell whose halfface handles are the file values + handle_offset and designate existing halffaces", **FILE_JOB),
+    dict(name="reader-edge-chunk-enum", harness="C07_file.cpp", entries=["harness_edge_chunk_enum"], shards=[{1: 1, 2: b} for b in range(8)], timeout=300,
+         bounds="read_topo_chunk on a one-edge TOPO chunk (U8 handles), 4 vertices read so far; the two vertex handle bytes a, b from {0, 3, 4, 255} and handle_offset from {0, 1, 4, 2^64-1}: all 64 "
+                "combinations ENUMERATED through a symbolic selector (8 per query): accepted exactly when both a+handle_offset and b+handle_offset (mod 2^64) are < 4, then exactly one edge with those vertices; "
+                "no memory error. (The variants with symbolic bytes/offset give no verdict: read_edges formats the symbolic handles into its error message.)", **FILE_JOB),
     dict(name="reader-edge-chunk", harness="C07_file.cpp", entries=["harness_edge_chunk"], shards=[{0: 1, 1: 1}, {0: 2, 1: 1}, {0: 4, 1: 1}], timeout=600, tiers=["thorough"],
          bounds="read_topo_chunk on a one-edge TOPO chunk, 4 vertices read so far: symbolic span.first, handle_encoding byte, handle_offset (64 bit) and handle bytes: "
                 "no memory error; accepted => exactly one edge whose vertex handles are < 4", **FILE_JOB),
